@@ -1,0 +1,38 @@
+//go:build verif
+// +build verif
+
+package core
+
+import (
+	"strconv"
+
+	"com.tuntun.rangers/node/src/common"
+	"com.tuntun.rangers/node/src/middleware/log"
+	"com.tuntun.rangers/node/src/middleware/types"
+)
+
+// Verification hook H4c (build tag verif, add-only): the group fork switch as the node performs it.
+// VerifGroupForkSwitch builds a real groupChainFork on the given common ancestor
+// (newGroupChainFork: refreshGroupForkDB + insertGroup), files the fork's groups with the real
+// insertGroup (what addGroupOnFork does after verifyGroup — the consensus/block checks of
+// verifyGroup are NOT run) and then calls the real triggerOnChain on the live group chain:
+// removeFromCommonAncestor(fork.getGroup(header)) followed by AddGroup of every fork group read
+// back from the fork database. The groups must carry GroupHeight = ancestor height + 1, + 2, …
+// Returns triggerOnChain's result.
+func VerifGroupForkSwitch(commonAncestor *types.Group, groups []*types.Group) bool {
+	if syncLogger == nil {
+		syncLogger = log.GetLoggerByIndex(log.SyncLogConfig, strconv.Itoa(common.InstanceIndex))
+	}
+	fork := newGroupChainFork(commonAncestor)
+	for _, g := range groups {
+		if err := fork.insertGroup(g); err != nil {
+			panic(err)
+		}
+		fork.latestGroup = g
+	}
+	return fork.triggerOnChain(groupChainImpl)
+}
+
+// VerifGroupChainAvailableAt is groupChain.availableGroupsAt (unexported; the exported
+// GetAvailableGroupsByMinerId filters it by membership).
+func VerifGroupChainAvailableAt(h uint64) []*types.Group { return groupChainImpl.availableGroupsAt(h) }
